@@ -144,6 +144,28 @@ pub fn file_bytes<'a>(s: &'a Snap, path: &str) -> Option<&'a [u8]> {
     }
 }
 
+/// Where a symbolic link at `path` leads (tree-relative), if it leads to a regular file of the tree.
+pub fn follow(s: &Snap, path: &str) -> Option<String> {
+    match s.get(path) {
+        Some(Node::Symlink { target, .. }) if !target.starts_with('/') => {
+            let r = join_rel(parent_rel(path), target)?;
+            match s.get(&r) {
+                Some(Node::File { .. }) => Some(r),
+                _ => None,
+            }
+        }
+        _ => None,
+    }
+}
+
+/// Bytes found at `path`, through a symbolic link if there is one.
+pub fn file_bytes_follow<'a>(s: &'a Snap, path: &str) -> Option<&'a [u8]> {
+    match follow(s, path) {
+        Some(r) => file_bytes(s, &r),
+        None => file_bytes(s, path),
+    }
+}
+
 /// Set every file mtime to the sentinel (directories too).
 pub fn set_sentinel(root: &Path) {
     fn walk(d: &Path) {
